@@ -10,6 +10,7 @@ mod fam_semt;
 mod fam_semw;
 mod fam_scope;
 mod fam_shape;
+mod fam_graph;
 mod sema;
 mod fam_tree;
 mod fam_use;
@@ -37,6 +38,7 @@ fn main() {
         "use" => fam_use::run(rest),
         "scope" => fam_scope::run(rest),
         "shape" => fam_shape::run(rest),
+        "graph" => fam_graph::run(rest),
         f => {
             eprintln!("unknown family {f}");
             std::process::exit(2);
